@@ -62,4 +62,7 @@ def run(tier="quick", seed=0, use_cache=True):
     from ..rules import cmpmacro
     cmpmacro.extend(res, use_cache, ("TEST_KEY_SET_OR",))
     res.explanation += ' CMP-MACRO: the error branch of the key comparison macro is taken exactly when an exception is pending (COMPARE returns +1 when == raised).'
+    from ..rules import errexc
+    errexc.extend(res, use_cache)
+    res.explanation += " ERR-NOEXC: an error return is never reached through a test that also covers a callee's non-error result, so the exception seen by the caller is the one the comparison raised."
     return res
